@@ -136,7 +136,7 @@ func VerifC17Iter() {
 			bases := [...]int{1 << 53, -(1 << 53), 1<<62 - 32, -(1<<62 - 32), 1 << 24, 1 << 31, 1 << 32}
 			vrt.Assume(a == bases[vrt.Choice("limit", len(bases))]+d)
 		}
-		vrt.Assume(a < 1<<62 && a > -(1 << 62))
+		vrt.Assume(a < 1<<62 && a > -(1<<62))
 		b := a + n
 		v, err := p.S.Run(collect(call("fromto", node.Int(a), node.Int(b))), true)
 		arr, ok := v.ToArray()
